@@ -33,6 +33,8 @@ def junk_files(rng, sample_pel):
     pce = b'PE' + bytes([20, 0]) + b'9105-22A' + b'SN0000000001'
     co = pelbuild.callout(subs=pelbuild.fru() + pce, loc=b'U78DA.ND1\0\0\0')
     j.append(('junk_pce', pelbuild.pel([pelbuild.UH(), pelbuild.SRC(callouts=co)], eid=0x0BADC0DE)))
+    # JSON user data that is not UTF-8
+    j.append(('junk_notutf8', pelbuild.pel([pelbuild.UH(), pelbuild.SRC(), pelbuild.UD(b'{"a": "\xff\xfe"}', sub=1)], eid=0x0BADC0E0)))
     rng.shuffle(j)
     return j[:rng.randrange(1, len(j) + 1)]
 
@@ -68,6 +70,7 @@ def undecodable(kind, data):
         return True
 
 
+DEEP = pelbuild.pel([pelbuild.UH(), pelbuild.SRC(), pelbuild.UD(b'[' * 1200 + b']' * 1200, sub=1)], eid=0x0BADC0DF)
 KIND = {'list': 'summary', 'plid': 'summary', 'src': 'summary', 'listhex': 'summary', 'all': 'full', 'allhex': 'full', 'count': 'headers', 'json': 'full'}
 
 
@@ -127,6 +130,17 @@ def run(tier, seed):
             if a[0] != b[0]:
                 k = next((i for i in range(min(len(a[0]), len(b[0]))) if a[0][i] != b[0][i]), min(len(a[0]), len(b[0])))
                 ck.fail('junk files changed what is printed for the other PELs', rp | {'at': k, 'clean': a[0][max(0, k - 80):k + 80], 'with_junk': b[0][max(0, k - 80):k + 80]}, 'interference')
+            if mode in ('all', 'list', 'src') and files and rng.random() < 0.5:
+                # a file whose decoding fails with an error of an unusual class: JSON user data nested deeper than the interpreter's recursion
+                # limit (RecursionError).  The model has no recursion limit, so this pair is judged on the real runs alone.
+                deep = clirun.make_dir(files + junk + [(rng.choice(['junk_deep', '0_junk_deep', 'zzz_junk_deep']), DEEP)], subdirs={'archive': [('valid_in_subdir', DEEP)]})
+                paths.append(deep)
+                if undecodable(KIND[mode], DEEP):
+                    c = clirun.run_main(['-p', deep] + clirun.cfg_argv(cfg) + argv)
+                    ck.count('mode %s with a file that raises RecursionError' % mode)
+                    if c[2] != 0 or c[0] != a[0]:
+                        ck.fail('a file whose decoding fails with a RecursionError changed the exit status or what is printed for the other PELs',
+                                rp | {'exit': c[2], 'stdout': c[0][:200], 'stderr': c[1][-300:]}, 'interference_recursion')
             if 'hex' not in mode:
                 try:
                     json.loads(b[0])
